@@ -707,6 +707,7 @@ class Bridge:
         self.called = set()
         self.checks = dict(loads=0, stores=0, range_checks=0, frees=0)
         self.last = None
+        self.calls = []          # (fname, lifted args, (states, values), events) per call, for the native differential replay
 
     def lift(self, v):
         if isinstance(v, Sym): return v
@@ -738,4 +739,5 @@ class Bridge:
         leaks = [o for o in it.live if o.kind == 'heap' and not o.freed]
         if leaks: raise UB('memory leak: %d heap blocks not freed (%s)' % (len(leaks), ', '.join(o.name for o in leaks[:3])))
         st, vals = frompy(r)
+        self.calls.append((fname, args, (st, vals), list(it.events), dict(it.defs)))
         return st, vals
